@@ -51,15 +51,17 @@ func (p *Person) flatString() string {
 // recursive into the Contacts array.
 func (p *Person) Copy() *Person {
 	np := &Person{
-		Name:     p.Name,
-		IsOrg:    p.IsOrg,
-		Email:    p.Email,
-		Url:      p.Url,
-		Phone:    p.Phone,
-		Contacts: []*Person{},
+		Name:  p.Name,
+		IsOrg: p.IsOrg,
+		Email: p.Email,
+		Url:   p.Url,
+		Phone: p.Phone,
 	}
-	for _, op := range p.Contacts {
-		op.Contacts = append(op.Contacts, op.Copy())
+	if p.Contacts != nil {
+		np.Contacts = make([]*Person, 0, len(p.Contacts))
+		for _, op := range p.Contacts {
+			np.Contacts = append(np.Contacts, op.Copy())
+		}
 	}
 	return np
 }
